@@ -219,7 +219,7 @@ def axis_forms(dims):
 
 def run_shape(case):
     spec = case["spec"]
-    attrs = {"units": "m", "hist": [1, 2]}
+    attrs = {"units": "m", "hist": [1, 2], "dtype": "float32", "copy": 0}       # (any key may be metadata, also names of constructor parameters)
     a = core.build(spec, attrs=attrs)
     snap = core.snapshot(a)
     sub = []
@@ -323,7 +323,7 @@ def strategy(tier):
 
 def run_gen(case):
     spec = case["spec"]
-    attrs = {"units": "m", "hist": [1, 2]}
+    attrs = {"units": "m", "hist": [1, 2], "dtype": "float32", "copy": 0}       # (any key may be metadata, also names of constructor parameters)
     a = core.build(spec, attrs=attrs)
     forms = axis_forms(spec["dims"])
     cl = set(["vk:" + spec["vk"]])
